@@ -3,108 +3,190 @@ import NfcVerif.Lemmas.IsoDep
 # C12 - ISO-DEP exchanges each APDU exactly once or reports a tag error
 
 Statements; the invariant proofs are in `Lemmas/IsoDep.lean`.  Model:
-`Model/IsoDep.lean` - `exchange` is `IsoDepInitiator.exchange` (with the S(WTX) handling
-of `fixes/C12`), `isoPeer cfg` an ISO/IEC 14443-4 PICC with an arbitrary application
-`cfg.app`, arbitrary response block size and arbitrary placement of S(WTX) requests, the
-`World` carries an arbitrary fault script (`d`eliver, `l`ose, `c`orrupt, `p`rotocol error,
-`e`mpty frame, per transmitted block).
+`Model/IsoDep.lean` - `exchange` is `IsoDepInitiator.exchange` (with the repairs of
+`fixes/C12`: S(WTX) answered inside the retry loops, no further command after an unrecoverable
+error), `isoPeer cfg` an ISO/IEC 14443-4 PICC with an arbitrary application `cfg.app`, arbitrary
+response block size and arbitrary placement of S(WTX) requests, the `World` carries an arbitrary
+fault script (`d`eliver, `l`ose, `c`orrupt, `p`rotocol error, `e`mpty frame, per transmitted block).
 
-`Sync pni card` (card and reader in step, no partial command chain in the card) holds after
-activation (`sync_init`) and is re-established by every successful exchange
-(`isodep_response_exact`), so the theorems cover every sequence of exchanges up to and
-including the first failing one.  What happens after a failed exchange is the open finding
-`isodep-stale-after-error` (`isodep_stale_after_error_counterexample`).
+`SessInv pcd card` (no unrecoverable error so far => card and reader in step, no partial command
+chain in the card) holds after activation (`sess_init`) and is preserved by every exchange,
+successful or not (`isodep_session_inv`), so the theorems hold for every exchange of every
+session (`isodep_session_exact`), without any hypothesis on the state left by earlier failures.
 -/
 namespace NfcVerif.C12
 open NfcVerif NfcVerif.IsoDep
 
-/-- activation state: PCD block number 0, PICC block number 1 (rules A and C) -/
-theorem sync_init : Sync 0 Card.init := ⟨rfl, rfl⟩
+/-- the session invariant: as long as no unrecoverable error was raised, card and reader are in step -/
+def SessInv (pcd : Pcd) (c : Card) : Prop := pcd.failed = none → pcd.pni < 2 ∧ Sync pcd.pni c
+
+/-- activation state: PCD block number 0, PICC block number 1 (rules A and C), for every FSCI/FWI/device limit -/
+theorem sess_init (fsci fwi maxSend : Nat) : SessInv (mkPcd fsci fwi maxSend) Card.init :=
+  fun _ => ⟨by simp [mkPcd], ⟨rfl, rfl⟩⟩
+
+/-- what one `exchange` guarantees in a session -/
+def StepPost (cfg : CardCfg) (cmd : Bytes) (w : World Card) (r : World Card × Pcd × Py Bytes) : Prop :=
+  (r.1.card.log = w.card.log ∨ r.1.card.log = w.card.log ++ [cmd]) ∧
+  (∀ x, r.2.2 = .ok x → x = cfg.app w.card.log.length cmd ∧ r.1.card.log = w.card.log ++ [cmd]) ∧
+  (r.2.2 ≠ .error .outOfFuel → SessInv r.2.1 r.1.card)
+
+theorem exchange_step (cfg : CardCfg) (F : Nat) (pcd : Pcd) (cmd : Bytes) (w : World Card)
+    (hs : SessInv pcd w.card) : StepPost cfg cmd w (exchange (isoPeer cfg) F pcd cmd w) := by
+  unfold exchange
+  cases hf : pcd.failed with
+  | some e =>
+    simp only
+    refine ⟨Or.inl rfl, by intro x hx; cases hx, ?_⟩
+    intro _ hn; rw [hf] at hn; cases hn
+  | none =>
+    simp only
+    obtain ⟨hp, hsync⟩ := hs hf
+    have hfl := exchangeCmd_failed (isoPeer cfg) F pcd cmd w
+    by_cases h : pcd.miu ≤ 0 ∨ cmd = []
+    · -- nothing is sent: ValueError / UnboundLocalError before the first block
+      have hun : exchangeCmd (isoPeer cfg) F pcd cmd w = (w, pcd, .error .value) ∨
+          exchangeCmd (isoPeer cfg) F pcd cmd w = (w, pcd, .error .unbound) := by
+        unfold exchangeCmd
+        by_cases h0 : pcd.miu = 0
+        · left; simp [h0]
+        · right
+          have : pcd.miu < 0 ∨ cmd = [] := by
+            rcases h with h | h
+            · exact Or.inl (by omega)
+            · exact Or.inr h
+          simp [h0, this]
+      rcases hun with hun | hun <;> rw [hun] <;> simp only <;>
+        exact ⟨Or.inl rfl, by intro x hx; cases hx, fun _ _ => ⟨hp, hsync⟩⟩
+    · have hpos : 0 < pcd.miu := by
+        by_cases h' : pcd.miu ≤ 0
+        · exact absurd (Or.inl h') h
+        · omega
+      have hm : 1 ≤ pcd.miu.toNat := by omega
+      have hc : cmd ≠ [] := fun hc => h (Or.inr hc)
+      have := exchangeCmd_post cfg F pcd cmd w pcd.miu.toNat (by omega) hm hc hp hsync (fun _ => True)
+        (fun _ _ => trivial) (fun _ _ => trivial)
+      obtain ⟨_, hres⟩ := this
+      generalize exchangeCmd (isoPeer cfg) F pcd cmd w = r at hres hfl ⊢
+      obtain ⟨w1, p1, res⟩ := r
+      cases res with
+      | ok x =>
+        simp only at hres hfl ⊢
+        refine ⟨Or.inr hres.1, ?_, fun _ _ => ⟨hres.2.2.1, hres.2.2.2⟩⟩
+        intro y hy; cases hy; exact ⟨hres.2.1, hres.1⟩
+      | error e =>
+        simp only at hres hfl ⊢
+        obtain ⟨hk, hlog⟩ := hres
+        rcases hk with rfl | rfl | rfl | rfl
+        · exact ⟨hlog, by intro x hx; cases hx, fun hne => absurd rfl hne⟩
+        all_goals
+          exact ⟨hlog, by intro x hx; cases hx, fun _ hn => by simp at hn⟩
 
 /-- **At most once.** For every card application, response block size, S(WTX) placement, fuel,
-retry budgets, frame size, command and *every fault script*: the card's execution log after
-`exchange` is the old log, or the old log plus exactly the command that was sent (never a
-second execution, never a truncated or spliced command) - also when `exchange` fails. -/
+retry budgets, frame size, command, *every fault script* and every state a session can be in:
+the card's execution log after `exchange` is the old log, or the old log plus exactly the command
+that was sent (never a second execution, never a truncated or spliced command) - also when
+`exchange` fails, and also after earlier failures. -/
 theorem isodep_at_most_once (cfg : CardCfg) (F : Nat) (pcd : Pcd) (cmd : Bytes) (w : World Card)
-    (hp : pcd.pni < 2) (hs : Sync pcd.pni w.card) :
+    (hs : SessInv pcd w.card) :
     (exchange (isoPeer cfg) F pcd cmd w).1.card.log = w.card.log ∨
-    (exchange (isoPeer cfg) F pcd cmd w).1.card.log = w.card.log ++ [cmd] := by
-  by_cases h : pcd.miu ≤ 0 ∨ cmd = []
-  · left
-    unfold exchange
-    by_cases h0 : pcd.miu = 0
-    · simp [h0]
-    · have : pcd.miu < 0 ∨ cmd = [] := by
-        rcases h with h | h
-        · exact Or.inl (by omega)
-        · exact Or.inr h
-      simp [h0, this]
-  · have hpos : 0 < pcd.miu := by
-      by_cases h' : pcd.miu ≤ 0
-      · exact absurd (Or.inl h') h
-      · omega
-    have hm : 1 ≤ pcd.miu.toNat := by omega
-    have hc : cmd ≠ [] := fun hc => h (Or.inr hc)
-    have := exchange_post cfg F pcd cmd w pcd.miu.toNat (by omega) hm hc hp hs (fun _ => True)
-      (fun _ _ => trivial) (fun _ _ => trivial)
-    obtain ⟨_, hres⟩ := this
-    generalize exchange (isoPeer cfg) F pcd cmd w = r at hres ⊢
-    obtain ⟨w1, p1, res⟩ := r
-    cases res with
-    | error e => exact hres.2
-    | ok x => exact Or.inr hres.1
+    (exchange (isoPeer cfg) F pcd cmd w).1.card.log = w.card.log ++ [cmd] :=
+  (exchange_step cfg F pcd cmd w hs).1
 
-example : (exchange (isoPeer ⟨2, 1, 1, 1, 3, fun n c => c ++ [n, 0x90, 0]⟩) 20 ⟨0, 2, 5, 5⟩ [1, 2, 3, 4, 5]
+example : (exchange (isoPeer ⟨2, 1, 1, 1, 3, fun n c => c ++ [n, 0x90, 0]⟩) 20 { pni := 0, miu := 2, nNak := 5, nAck := 5 }
+    [1, 2, 3, 4, 5]
     ⟨Card.init, [.d, .l, .l, .d, .c, .d, .d, .e, .d, .d, .d, .l], []⟩).1.card.log = [[1, 2, 3, 4, 5]] := by decide
 /-- the same exchange with a retry budget of 2 fails, nothing was executed -/
-example : (exchange (isoPeer ⟨2, 1, 1, 1, 3, fun n c => c ++ [n, 0x90, 0]⟩) 20 ⟨0, 3, 2, 2⟩ [1, 2, 3, 4, 5]
+example : (exchange (isoPeer ⟨2, 1, 1, 1, 3, fun n c => c ++ [n, 0x90, 0]⟩) 20 { pni := 0, miu := 3, nNak := 2, nAck := 2 }
+    [1, 2, 3, 4, 5]
     ⟨Card.init, [.d, .l, .l, .d, .c, .d, .d, .e, .d, .d, .d, .l], []⟩).1.card.log = [] := by decide
 
 /-- **Exact response.** A response that `exchange` returns is the complete response of the card's
 execution of this very command (execution number `w.card.log.length`, so not a retransmission of
-an earlier response), the command was executed exactly once, and card and reader are in step
-again for the next exchange. -/
+an earlier response) and the command was executed exactly once. No hypothesis on how earlier
+exchanges of the session ended. -/
 theorem isodep_response_exact (cfg : CardCfg) (F : Nat) (pcd : Pcd) (cmd : Bytes) (w : World Card)
-    (hp : pcd.pni < 2) (hs : Sync pcd.pni w.card) (x : Bytes)
-    (hx : (exchange (isoPeer cfg) F pcd cmd w).2.2 = .ok x) :
+    (hs : SessInv pcd w.card) (x : Bytes) (hx : (exchange (isoPeer cfg) F pcd cmd w).2.2 = .ok x) :
     x = cfg.app w.card.log.length cmd ∧
-    (exchange (isoPeer cfg) F pcd cmd w).1.card.log = w.card.log ++ [cmd] ∧
-    (exchange (isoPeer cfg) F pcd cmd w).2.1.pni < 2 ∧
-    Sync (exchange (isoPeer cfg) F pcd cmd w).2.1.pni (exchange (isoPeer cfg) F pcd cmd w).1.card := by
-  by_cases h : pcd.miu ≤ 0 ∨ cmd = []
-  · exfalso
-    unfold exchange at hx
-    by_cases h0 : pcd.miu = 0
-    · simp [h0] at hx
-    · have : pcd.miu < 0 ∨ cmd = [] := by
-        rcases h with h | h
-        · exact Or.inl (by omega)
-        · exact Or.inr h
-      simp [h0, this] at hx
-  · have hpos : 0 < pcd.miu := by
-      by_cases h' : pcd.miu ≤ 0
-      · exact absurd (Or.inl h') h
-      · omega
-    have hm : 1 ≤ pcd.miu.toNat := by omega
-    have hc : cmd ≠ [] := fun hc => h (Or.inr hc)
-    have := exchange_post cfg F pcd cmd w pcd.miu.toNat (by omega) hm hc hp hs (fun _ => True)
-      (fun _ _ => trivial) (fun _ _ => trivial)
-    obtain ⟨_, hres⟩ := this
-    generalize exchange (isoPeer cfg) F pcd cmd w = r at hres hx ⊢
-    obtain ⟨w1, p1, res⟩ := r
-    simp only at hx
-    subst hx
-    exact ⟨hres.2.1, hres.1, hres.2.2.1, hres.2.2.2⟩
+    (exchange (isoPeer cfg) F pcd cmd w).1.card.log = w.card.log ++ [cmd] :=
+  (exchange_step cfg F pcd cmd w hs).2.1 x hx
 
 /-- command chained in 3 blocks, response chained in 4 blocks, S(WTX) before every card block, 6 faults -/
-example : (exchange (isoPeer ⟨2, 1, 1, 1, 3, fun n c => c ++ [n, 0x90, 0]⟩) 20 ⟨0, 2, 5, 5⟩ [1, 2, 3, 4, 5]
+example : (exchange (isoPeer ⟨2, 1, 1, 1, 3, fun n c => c ++ [n, 0x90, 0]⟩) 20 { pni := 0, miu := 2, nNak := 5, nAck := 5 }
+    [1, 2, 3, 4, 5]
     ⟨Card.init, [.d, .l, .l, .d, .c, .d, .d, .e, .d, .d, .d, .l], []⟩).2.2 = .ok [1, 2, 3, 4, 5, 0, 0x90, 0] := by decide
+
+/-- **The session invariant is preserved** by every exchange, whether it succeeds or raises. -/
+theorem isodep_session_inv (cfg : CardCfg) (F : Nat) (pcd : Pcd) (cmd : Bytes) (w : World Card)
+    (hs : SessInv pcd w.card) (hf : (exchange (isoPeer cfg) F pcd cmd w).2.2 ≠ .error .outOfFuel) :
+    SessInv (exchange (isoPeer cfg) F pcd cmd w).2.1 (exchange (isoPeer cfg) F pcd cmd w).1.card :=
+  (exchange_step cfg F pcd cmd w hs).2.2 hf
+
+/-- at-most-once and exact response for every command of a sequence run on one activation -/
+def SessionExact (cfg : CardCfg) (F : Nat) : List Bytes → Pcd → World Card → Prop
+  | [], _, _ => True
+  | c :: cs, pcd, w =>
+    ((exchange (isoPeer cfg) F pcd c w).1.card.log = w.card.log ∨
+     (exchange (isoPeer cfg) F pcd c w).1.card.log = w.card.log ++ [c]) ∧
+    (∀ x, (exchange (isoPeer cfg) F pcd c w).2.2 = .ok x →
+      x = cfg.app w.card.log.length c ∧ (exchange (isoPeer cfg) F pcd c w).1.card.log = w.card.log ++ [c]) ∧
+    ((exchange (isoPeer cfg) F pcd c w).2.2 ≠ .error .outOfFuel →
+      SessionExact cfg F cs (exchange (isoPeer cfg) F pcd c w).2.1 (exchange (isoPeer cfg) F pcd c w).1)
+
+/-- **Sessions.** Any sequence of commands on one activation, any fault script, failed exchanges included: every
+command is executed at most once and every response returned is the exact response to its command
+(`outOfFuel` is the model's marker for "more than `F` blocks in one loop", see `isodep_absorbs` / `isodep_terminates`). -/
+theorem isodep_session_exact (cfg : CardCfg) (F : Nat) (cmds : List Bytes) :
+    ∀ (pcd : Pcd) (w : World Card), SessInv pcd w.card → SessionExact cfg F cmds pcd w := by
+  induction cmds with
+  | nil => intro _ _ _; trivial
+  | cons c cs ih =>
+    intro pcd w hs
+    obtain ⟨h1, h2, h3⟩ := exchange_step cfg F pcd c w hs
+    exact ⟨h1, h2, fun hf => ih _ _ (h3 hf)⟩
+
+theorem isodep_session_from_activation (cfg : CardCfg) (F : Nat) (cmds : List Bytes) (fsci fwi maxSend : Nat)
+    (script : List Fault) : SessionExact cfg F cmds (mkPcd fsci fwi maxSend) ⟨Card.init, script, []⟩ :=
+  isodep_session_exact cfg F cmds _ _ (sess_init fsci fwi maxSend)
+
+/-- **After an unrecoverable error** no block is sent any more: the error is raised again, the card is not touched. -/
+theorem isodep_refuses_after_error {σ : Type} (P : Peer σ) (F : Nat) (pcd : Pcd) (cmd : Bytes) (w : World σ) (e : Int)
+    (h : pcd.failed = some e) : exchange P F pcd cmd w = (w, pcd, .error (.tagCmd e)) := by
+  unfold exchange; simp [h]
+
+/-- every `Type4TagCommandError` raised by `exchange` sets the flag -/
+theorem isodep_error_sets_flag {σ : Type} (P : Peer σ) (F : Nat) (pcd : Pcd) (cmd : Bytes) (w : World σ) (e : Int)
+    (h : (exchange P F pcd cmd w).2.2 = .error (.tagCmd e)) : (exchange P F pcd cmd w).2.1.failed = some e := by
+  unfold exchange at h ⊢
+  cases hf : pcd.failed with
+  | some e' => simp only [hf] at h ⊢; cases h; rfl
+  | none =>
+    simp only [hf] at h ⊢
+    generalize exchangeCmd P F pcd cmd w = r at h ⊢
+    obtain ⟨w1, p1, res⟩ := r
+    cases res with
+    | ok x => simp at h
+    | error e' =>
+      cases e' <;> simp only at h ⊢ <;> first | (cases h; rfl) | (cases h)
+
+def exCfg : CardCfg := ⟨253, 0, 0, 0, 1, fun n c => c ++ [n, 0x90, 0]⟩
+def exPcd : Pcd := { pni := 0, miu := 253, nNak := 1, nAck := 1 }
+/-- first exchange: command delivered, response and its retransmission lost; second exchange: I-block would be lost -/
+def exWorld : World Card := ⟨Card.init, [.d, .l, .d, .l, .l, .d, .d], []⟩
+
+/-- the witness of the former finding `isodep-stale-after-error`: the second command used to return the response of
+the first one; now it raises the error of the first exchange and the card sees no further block -/
+example :
+    (exchange (isoPeer exCfg) 8 exPcd [1, 1] exWorld).2.2 = .error (.tagCmd TIMEOUT_ERROR) ∧
+    (exchange (isoPeer exCfg) 8 (exchange (isoPeer exCfg) 8 exPcd [1, 1] exWorld).2.1 [2, 2]
+      (exchange (isoPeer exCfg) 8 exPcd [1, 1] exWorld).1).2.2 = .error (.tagCmd TIMEOUT_ERROR) ∧
+    (exchange (isoPeer exCfg) 8 (exchange (isoPeer exCfg) 8 exPcd [1, 1] exWorld).2.1 [2, 2]
+      (exchange (isoPeer exCfg) 8 exPcd [1, 1] exWorld).1).1.trace = [[2, 1, 1], [0xB2]] := by decide
 
 /-- **send_apdu.** When `send_apdu(..., check_status=True)` returns `x`, the card executed exactly one command, namely
 the ISO 7816-4 encoding of the arguments, and answered `x` followed by the status word 9000; any other status word
 is raised as `Type4TagCommandError(SW)`. -/
 theorem isodep_send_apdu_exact (cfg : CardCfg) (F : Nat) (pcd : Pcd) (ext : Bool) (cla ins p1 p2 : Nat) (data : Bytes)
-    (mrl : Nat) (w : World Card) (hp : pcd.pni < 2) (hs : Sync pcd.pni w.card) (x : Bytes)
+    (mrl : Nat) (w : World Card) (hs : SessInv pcd w.card) (x : Bytes)
     (hx : (sendApdu (isoPeer cfg) F pcd ext cla ins p1 p2 data mrl true w).2.2 = .ok x) :
     ∃ apdu, encodeApdu ext cla ins p1 p2 data mrl = .ok apdu ∧
       (sendApdu (isoPeer cfg) F pcd ext cla ins p1 p2 data mrl true w).1.card.log = w.card.log ++ [apdu] ∧
@@ -119,7 +201,7 @@ theorem isodep_send_apdu_exact (cfg : CardCfg) (F : Nat) (pcd : Pcd) (ext : Bool
     | error e => simp [hex] at hx
     | ok rsp =>
       simp only [hex] at hx ⊢
-      obtain ⟨hr, hlog, _, _⟩ := isodep_response_exact cfg F pcd apdu w hp hs rsp hex
+      obtain ⟨hr, hlog⟩ := isodep_response_exact cfg F pcd apdu w hs rsp hex
       refine ⟨hlog, ?_⟩
       rw [← hr]
       unfold checkStatus at hx
@@ -130,31 +212,71 @@ theorem isodep_send_apdu_exact (cfg : CardCfg) (F : Nat) (pcd : Pcd) (ext : Bool
           rw [← hx, ← hsw, List.take_append_drop]
         · simp [hlen, hsw] at hx
 
-example : (sendApdu (isoPeer ⟨3, 0, 0, 0, 1, fun _ c => c.take 2 ++ [0x90, 0]⟩) 20 ⟨0, 4, 2, 2⟩ false 0 0xB0 0 0 [] 2 true
+example : (sendApdu (isoPeer ⟨3, 0, 0, 0, 1, fun _ c => c.take 2 ++ [0x90, 0]⟩) 20 { pni := 0, miu := 4, nNak := 2, nAck := 2 } false 0 0xB0 0 0 [] 2 true
     ⟨Card.init, [.d, .l, .c], []⟩).2.2 = .ok [0, 0xB0] := by decide
 
-/-- **Error kind.** Whatever the card does (any `Peer`, not only the ISO PICC), every fault script:
-if `exchange` raises, it raises `Type4TagCommandError` with errno `TIMEOUT_ERROR`, `RECEIVE_ERROR` or
-`PROTOCOL_ERROR` - no `IndexError`, no raw `nfc.clf` exception.  (`outOfFuel` is not a Python exception:
-it marks a run in which the card kept the reader busy for more than `F` blocks in one loop.) -/
-theorem isodep_error_kind {σ : Type} (P : Peer σ) (F : Nat) (pcd : Pcd) (cmd : Bytes) (w : World σ)
-    (hm : 0 < pcd.miu) (hcmd : cmd ≠ []) (e : Exc) (h : (exchange P F pcd cmd w).2.2 = .error e) :
-    e = .outOfFuel ∨ e = .tagCmd TIMEOUT_ERROR ∨ e = .tagCmd RECEIVE_ERROR ∨ e = .tagCmd PROTOCOL_ERROR :=
-  exchange_error_kind_any P F pcd cmd w hm hcmd e h
+/-- the error flag holds one of the three documented error numbers -/
+def FlagOk (pcd : Pcd) : Prop :=
+  ∀ e, pcd.failed = some e → e = TIMEOUT_ERROR ∨ e = RECEIVE_ERROR ∨ e = PROTOCOL_ERROR
 
-example : (exchange (isoPeer ⟨2, 1, 0, 0, 3, fun n c => c ++ [n, 0x90, 0]⟩) 20 ⟨0, 3, 1, 1⟩ [1, 2]
+/-- **Error kind.** Whatever the card does (any `Peer`, not only the ISO PICC), every fault script, every session
+state: if `exchange` raises, it raises `Type4TagCommandError` with errno `TIMEOUT_ERROR`, `RECEIVE_ERROR` or
+`PROTOCOL_ERROR` - no `IndexError`, no raw `nfc.clf` exception.  (`outOfFuel` is not a Python exception:
+it marks a run in which the card kept the reader busy for more than `F` blocks in one loop; `isodep_terminates`
+excludes it for the ISO card.) -/
+theorem isodep_error_kind {σ : Type} (P : Peer σ) (F : Nat) (pcd : Pcd) (cmd : Bytes) (w : World σ)
+    (hm : 0 < pcd.miu) (hcmd : cmd ≠ []) (hfl : FlagOk pcd) :
+    (∀ e, (exchange P F pcd cmd w).2.2 = .error e →
+      e = .outOfFuel ∨ e = .tagCmd TIMEOUT_ERROR ∨ e = .tagCmd RECEIVE_ERROR ∨ e = .tagCmd PROTOCOL_ERROR) ∧
+    FlagOk (exchange P F pcd cmd w).2.1 := by
+  unfold exchange
+  cases hf : pcd.failed with
+  | some e' =>
+    simp only
+    rcases hfl e' hf with rfl | rfl | rfl
+    · exact ⟨fun e h => by cases h; simp, hfl⟩
+    · exact ⟨fun e h => by cases h; simp, hfl⟩
+    · exact ⟨fun e h => by cases h; simp, hfl⟩
+  | none =>
+    simp only
+    have hk := exchangeCmd_error_kind_any P F pcd cmd w hm hcmd
+    have hfl' := exchangeCmd_failed P F pcd cmd w
+    generalize exchangeCmd P F pcd cmd w = r at hk hfl' ⊢
+    obtain ⟨w1, p1, res⟩ := r
+    simp only at hk hfl'
+    have hp1 : FlagOk p1 := by intro e he; rw [hfl', hf] at he; cases he
+    cases res with
+    | ok x => exact ⟨fun e h => by cases h, hp1⟩
+    | error e' =>
+      rcases hk e' rfl with rfl | rfl | rfl | rfl
+      · exact ⟨fun e h => by cases h; simp, hp1⟩
+      · exact ⟨fun e h => by cases h; simp, fun e he => by simp at he; subst he; simp⟩
+      · exact ⟨fun e h => by cases h; simp, fun e he => by simp at he; subst he; simp⟩
+      · exact ⟨fun e h => by cases h; simp, fun e he => by simp at he; subst he; simp⟩
+
+example : (exchange (isoPeer ⟨2, 1, 0, 0, 3, fun n c => c ++ [n, 0x90, 0]⟩) 20 { pni := 0, miu := 3, nNak := 1, nAck := 1 } [1, 2]
     ⟨Card.init, [.d, .d, .d, .c, .d, .l], []⟩).2.2 = .error (.tagCmd TIMEOUT_ERROR) := by decide
 
 /-- **Block bound.** With `miu = FSC - 3` every block handed to the reader during the exchange - I-blocks,
 R(ACK), R(NAK) and S(WTX) responses - is at most `FSC - 2` octets, i.e. fits the card's frame size with
 its two CRC octets. -/
 theorem isodep_block_bound (cfg : CardCfg) (F : Nat) (pcd : Pcd) (cmd : Bytes) (w : World Card) (fsc : Nat)
-    (hfsc : 4 ≤ fsc) (hmiu : pcd.miu = (fsc : Int) - 3) (hcmd : cmd ≠ [])
-    (hp : pcd.pni < 2) (hs : Sync pcd.pni w.card) :
+    (hfsc : 4 ≤ fsc) (hmiu : pcd.miu = (fsc : Int) - 3) (hcmd : cmd ≠ []) (hs : SessInv pcd w.card) :
     ∀ b ∈ (exchange (isoPeer cfg) F pcd cmd w).1.trace, b ∈ w.trace ∨ b.length + 2 ≤ fsc := by
-  have := exchange_post cfg F pcd cmd w (fsc - 3) (by omega) (by omega) hcmd hp hs
-    (fun b => b ∈ w.trace ∨ b.length + 2 ≤ fsc) (fun b hb => Or.inr (by omega)) (fun b hb => Or.inl hb)
-  exact this.1
+  unfold exchange
+  cases hf : pcd.failed with
+  | some e => intro b hb; exact Or.inl hb
+  | none =>
+    obtain ⟨hp, hsync⟩ := hs hf
+    have := exchangeCmd_post cfg F pcd cmd w (fsc - 3) (by omega) (by omega) hcmd hp hsync
+      (fun b => b ∈ w.trace ∨ b.length + 2 ≤ fsc) (fun b hb => Or.inr (by omega)) (fun b hb => Or.inl hb)
+    have h1 := this.1
+    simp only
+    generalize exchangeCmd (isoPeer cfg) F pcd cmd w = r at h1 ⊢
+    obtain ⟨w1, p1, res⟩ := r
+    cases res with
+    | ok x => exact h1
+    | error e => cases e <;> exact h1
 
 /-- the frame size of the card after clamping to the device limit, FSCI 0..8 and RFU values -/
 theorem isodep_block_bound_derived (cfg : CardCfg) (F : Nat) (fsci fwi maxSend : Nat) (cmd : Bytes)
@@ -170,7 +292,7 @@ theorem isodep_block_bound_derived (cfg : CardCfg) (F : Nat) (fsci fwi maxSend :
     unfold deriveFsc; simp only [hmin]; split <;> omega
   have hge : 4 ≤ deriveFsc fsci maxSend := by unfold deriveFsc; simp only [hmin]; split <;> omega
   have := isodep_block_bound cfg F (mkPcd fsci fwi maxSend) cmd ⟨Card.init, script, []⟩ (deriveFsc fsci maxSend)
-    hge rfl hcmd (by simp [mkPcd]) (by simpa [mkPcd] using sync_init) b hb
+    hge rfl hcmd (sess_init fsci fwi maxSend) b hb
   rcases this with h | h
   · simp at h
   · omega
@@ -212,38 +334,7 @@ theorem fsc_fwt_derivation (fsci fwi maxSend : Nat) :
     show 13 ≤ (deriveFsc fsci maxSend : Int) - 3
     omega
 
-example : mkPcd 2 11 24 = ⟨0, 21, 1, 1⟩ := by decide
-example : activateA [5, 0x78, 0x80, 0x70, 0x02] 256 = .ok ⟨0, 253, 5, 5⟩ := by decide
-
-/-! ## after a failed exchange (open findings `isodep-stale-after-error`, `isodep-duplicate-after-error`,
-`isodep-spliced-command-after-error`) -/
-
-/-- `isodep_response_exact` without the hypothesis that card and reader are in step -/
-def ResponseExactWithoutSync : Prop :=
-  ∀ (cfg : CardCfg) (F : Nat) (pcd : Pcd) (cmd : Bytes) (w : World Card) (x : Bytes), pcd.pni < 2 →
-    (exchange (isoPeer cfg) F pcd cmd w).2.2 = .ok x → x = cfg.app w.card.log.length cmd
-
-def exCfg : CardCfg := ⟨253, 0, 0, 0, 1, fun n c => c ++ [n, 0x90, 0]⟩
-def exPcd : Pcd := ⟨0, 253, 1, 1⟩
-/-- first exchange: command delivered, response and its retransmission lost; second exchange: I-block lost -/
-def exWorld : World Card := ⟨Card.init, [.d, .l, .d, .l, .l, .d, .d], []⟩
-
-/-- The state is reachable from activation: the first command fails with `Type4TagCommandError(TIMEOUT_ERROR)`
-after the card executed it; the second command then *returns the response of the first one* and is never
-executed. -/
-theorem isodep_stale_after_error_reachable :
-    (exchange (isoPeer exCfg) 8 exPcd [1, 1] exWorld).2.2 = .error (.tagCmd TIMEOUT_ERROR) ∧
-    (exchange (isoPeer exCfg) 8 (exchange (isoPeer exCfg) 8 exPcd [1, 1] exWorld).2.1 [2, 2]
-      (exchange (isoPeer exCfg) 8 exPcd [1, 1] exWorld).1).2.2 = .ok [1, 1, 0, 0x90, 0] ∧
-    (exchange (isoPeer exCfg) 8 (exchange (isoPeer exCfg) 8 exPcd [1, 1] exWorld).2.1 [2, 2]
-      (exchange (isoPeer exCfg) 8 exPcd [1, 1] exWorld).1).1.card.log = [[1, 1]] := by decide
-
-theorem isodep_stale_after_error_counterexample : ¬ ResponseExactWithoutSync := by
-  intro h
-  have := h exCfg 8 (exchange (isoPeer exCfg) 8 exPcd [1, 1] exWorld).2.1 [2, 2]
-    (exchange (isoPeer exCfg) 8 exPcd [1, 1] exWorld).1 [1, 1, 0, 0x90, 0] (by decide)
-    isodep_stale_after_error_reachable.2.1
-  revert this
-  decide
+example : mkPcd 2 11 24 = { pni := 0, miu := 21, nNak := 1, nAck := 1 } := by decide
+example : activateA [5, 0x78, 0x80, 0x70, 0x02] 256 = .ok { pni := 0, miu := 253, nNak := 5, nAck := 5 } := by decide
 
 end NfcVerif.C12
